@@ -1,4 +1,6 @@
 import SFV.Lemmas.RegistryInv
+import SFV.Lemmas.SourceLoc
+import SFV.Gen.SourceLoc
 /-! # C21 — the data-location registry answers consistently with its history
 
 `_RemotePathMapper` / `DefaultDataManager` (`streamflow/data/manager.py`) **after fix 5f6015f** (invalidation walks the node
@@ -143,6 +145,61 @@ theorem get_returns_valid_only (s : St) (p : Path) (l : Nat) : ∀ o ∈ getLocs
   intro o ho
   simp only [getLocs, List.mem_filter] at ho
   exact ho.2
+
+/-! ### the source chosen for a transfer, while other transfers are in flight
+
+`get_source_location` as a task (`SFV/Model/SourceLoc.lean`; the shape of its three loops is read from the source into
+`SFV.Gen.sourceLocShape`). `hs` are the heaps at the successive resumptions of the task: the environment — transfers that put
+PRIMARY locations whose `available` event is still unset, invalidations, a finished copy that turns out to be a symbolic link,
+`available.set()` — is arbitrary in between. -/
+
+section SourceLocation
+open SFV.SourceLoc
+
+theorem sourceLocShape_rechecks : ∀ b, SFV.Gen.sourceLocShape.recheck b = true := by
+  intro b; cases b <;> decide
+
+/-- **The source location chosen for a transfer is a valid primary copy at the moment it is returned**, for every candidate
+order, every number of resumptions and every behaviour of the environment between them. -/
+theorem source_is_valid_primary (same loc pl : List Nat) (hs : List Heap) (i : Nat) (h : Heap) :
+    returnedAt SFV.Gen.sourceLocShape (.waiting false (candidates same loc pl)) hs = some (some i, h) →
+      h ∈ hs ∧ validPrimary h i := by
+  intro hr
+  obtain ⟨h1, h2, _⟩ := returned_good _ sourceLocShape_rechecks hs _ _ _ hr
+  exact ⟨h1, h2 i rfl⟩
+
+/-- … and `None` is returned only when every primary copy found at call time was seen not to be one any more -/
+theorem source_none_only_if_lost (same loc pl : List Nat) (hs : List Heap) (h : Heap) :
+    returnedAt SFV.Gen.sourceLocShape (.waiting false (candidates same loc pl)) hs = some (none, h) →
+      ∀ i ∈ pl, ∃ h' ∈ hs, lost h' i := by
+  intro hr i hi
+  obtain ⟨_, _, h3⟩ := returned_good _ sourceLocShape_rechecks hs _ _ _ hr
+  exact h3 rfl (Branch.any, i) (by simp [candidates, hi])
+
+/-- the type tested BEFORE the wait in the same-deployment loop (the seeded change): a destination in flight (PRIMARY, not
+available) that is invalidated before `available.set()` is returned although it is INVALID -/
+example :
+    let sh : Shape := { same := false, loc := true, any := true }
+    let h0 : Heap := [⟨1, false, .primary, false⟩]
+    let h1 : Heap := [⟨1, false, .invalid, true⟩]
+    returnedAt sh (.waiting false (candidates [0] [] [0])) [h0, h1] = some (some 0, h1) ∧ ¬ validPrimary h1 0 := by
+  decide
+
+/-- the code as written on the same history: the invalidated destination is skipped, nothing else is left -/
+example :
+    let h0 : Heap := [⟨1, false, .primary, false⟩]
+    let h1 : Heap := [⟨1, false, .invalid, true⟩]
+    returnedAt SFV.Gen.sourceLocShape (.waiting false (candidates [0] [] [0])) [h0, h1] = some (none, h1) := by
+  decide
+
+/-- not vacuous: an in-flight destination that completes as a primary copy is returned once it is available -/
+example :
+    let h0 : Heap := [⟨0, false, .primary, true⟩, ⟨1, false, .primary, false⟩]
+    let h1 : Heap := [⟨0, false, .primary, true⟩, ⟨1, false, .primary, true⟩]
+    returnedAt SFV.Gen.sourceLocShape (.waiting false (candidates [1] [] [0, 1])) [h0, h0, h1] = some (some 1, h1) := by
+  decide
+
+end SourceLocation
 
 /-! ### regression guards: the three histories that failed before fix 5f6015f -/
 
